@@ -36,6 +36,7 @@ pub struct Ledgers {
     pub deliv: u128,
     pub honest: bool,
     pub forced: bool,
+    pub repointed: bool,
 }
 
 #[derive(Clone)]
